@@ -4,7 +4,7 @@ SPEC = {
     "level": "exploration",
     "units": [
         {"name": "history", "pkg": O4, "kind": "rapid", "run": "^TestVerifC04History$",
-         "quick": {"checks": 150, "shards": 4, "timeout": 300},
+         "quick": {"checks": 250, "shards": 8, "timeout": 300},
          "thorough": {"checks": 800, "shards": 16, "timeout": 3000}},
         {"name": "history-race", "pkg": O4, "kind": "rapid", "run": "^TestVerifC04History$", "tiers": ("thorough",),
          "thorough": {"checks": 150, "shards": 8, "timeout": 3000, "race": True}},
